@@ -77,3 +77,6 @@ func TableParse(md protoreflect.MessageDescriptor, bookOpts *tableaupb.WorkbookO
 	sheetName string, rows [][]string, bookFormat format.Format) (proto.Message, error) {
 	return confgen.VerifTableParse(md, bookOpts, sheetOpts, sheetName, rows, bookFormat)
 }
+
+// SetConfgenYield installs the scheduler called at confgen's yield points.
+func SetConfgenYield(f func(site string, key string)) { confgen.VerifYield = f }
